@@ -30,6 +30,12 @@ def kids(n):
         if "base" in n:
             yield ("base", n["base"])
         return
+    if k == "Block":
+        for i, c in enumerate(n.get("stmts", [])):
+            yield (("stmts", i), c)
+        if isinstance(n.get("tail"), dict):
+            yield ("tail", n["tail"])
+        return
     for key in CHILD_KEYS:
         c = n.get(key)
         if isinstance(c, dict) and "k" in c:
